@@ -307,6 +307,31 @@ def run_case(c, ns):
             except Exception as e:
                 out["with_exc"] = "%s: %s" % (type(e).__name__, str(e)[:100])
             return {"ok": out}
+        if op == "reassign":
+            # a packet that already went through pack() (and one parsed from those bytes) gets EVERY field of another consistent
+            # value assigned by attribute: what it serializes to must not depend on what it held before
+            a, b = c["a"], c["b"]
+            fresh = build(b, ns).pack()
+            out = {"fresh": fresh.hex()}
+            p = build(a, ns)
+            ea = p.pack()
+            try:
+                q = cls.unpack(ea)
+            except Exception:
+                q = None
+            tmp = build(b, ns)
+            names = [n for n, x in b["f"] if not (isinstance(x, dict) and x.get("unset"))]
+            for tag, obj in (("after_pack", p), ("after_unpack", q)):
+                if obj is None:
+                    continue
+                try:
+                    src = build(b, ns)
+                    for n in names:
+                        setattr(obj, n, getattr(src, n))
+                    out[tag] = obj.pack().hex()
+                except Exception as e:
+                    out[tag] = "EXC:%s: %s" % (type(e).__name__, str(e)[:120])
+            return {"ok": out}
         if op == "repack":
             p = cls.unpack(bytes.fromhex(c["raw"]), c.get("offset", 0))
             for n, v in c["set"]:
